@@ -2,9 +2,13 @@ package main
 
 import (
 	"bufio"
+	"bytes"
+	"compress/gzip"
 	"encoding/json"
 	"flag"
 	"fmt"
+	"google.golang.org/protobuf/types/descriptorpb"
+	"io"
 	"os"
 	"path/filepath"
 	"reflect"
@@ -217,6 +221,17 @@ func cmdCoherence(args []string) {
 		ck(reflect.TypeOf(r.New().Interface()) == goT, "type:msgnew", name, "New() yields another Go type")
 		ck(!r.Type().Zero().IsValid() && r.Type().New().IsValid(), "type:validity", name, "")
 		ck(reflect.TypeOf(mt.New().Interface()) == goT && reflect.TypeOf(mt.Zero().Interface()) == goT, "type:registry-type", name, "")
+		// the deprecated Go API: Descriptor() ([]byte, []int) must lead to this very message
+		if meth := reflect.ValueOf(m).MethodByName("Descriptor"); meth.IsValid() && meth.Type().NumIn() == 0 && meth.Type().NumOut() == 2 {
+			checks++
+			if pn := catch(func() {
+				out := meth.Call(nil)
+				got, err := legacyPath(out[0].Bytes(), out[1].Interface().([]int), false)
+				ck(err == nil && got == name, "goapi:legacy-descriptor", name, fmt.Sprintf("Descriptor() path %v leads to %q (%v)", out[1].Interface(), got, err))
+			}); pn != "" {
+				emit("goapi:panic", name, "Descriptor(): "+pn)
+			}
+		}
 		// the Go type registered under this name must be the type generated for this message
 		ck(string(r.Descriptor().FullName()) == name, "type:wrong-go-type", name, fmt.Sprintf("registry maps %s to Go type %T, whose own descriptor is %s", name, m, r.Descriptor().FullName()))
 		if string(r.Descriptor().FullName()) != name {
@@ -263,7 +278,84 @@ func cmdCoherence(args []string) {
 			}
 		}
 	}
+	// ... and EnumDescriptor() of every enum
+	protoregistry.GlobalFiles.RangeFiles(func(fd protoreflect.FileDescriptor) bool {
+		if !interesting(fd) {
+			return true
+		}
+		var walkE func(es protoreflect.EnumDescriptors)
+		walkE = func(es protoreflect.EnumDescriptors) {
+			for i := 0; i < es.Len(); i++ {
+				ed := es.Get(i)
+				et, err := protoregistry.GlobalTypes.FindEnumByName(ed.FullName())
+				if err != nil {
+					continue
+				}
+				meth := reflect.ValueOf(et.New(0)).MethodByName("EnumDescriptor")
+				if !meth.IsValid() || meth.Type().NumOut() != 2 {
+					continue
+				}
+				checks++
+				if pn := catch(func() {
+					out := meth.Call(nil)
+					got, err := legacyPath(out[0].Bytes(), out[1].Interface().([]int), true)
+					ck(err == nil && got == string(ed.FullName()), "goapi:legacy-descriptor", string(ed.FullName()), fmt.Sprintf("EnumDescriptor() path %v leads to %q (%v)", out[1].Interface(), got, err))
+				}); pn != "" {
+					emit("goapi:panic", string(ed.FullName()), "EnumDescriptor(): "+pn)
+				}
+			}
+		}
+		var walkM func(ms protoreflect.MessageDescriptors)
+		walkM = func(ms protoreflect.MessageDescriptors) {
+			for i := 0; i < ms.Len(); i++ {
+				walkE(ms.Get(i).Enums())
+				walkM(ms.Get(i).Messages())
+			}
+		}
+		walkE(fd.Enums())
+		walkM(fd.Messages())
+		return true
+	})
 	b, _ := json.Marshal(map[string]any{"summary": true, "entities": entities, "files": files, "types": types, "checks": checks, "bad": bad})
 	w.Write(b)
 	w.WriteByte('\n')
+}
+
+// legacyPath resolves the (gzipped file descriptor, index path) pair of the deprecated
+// Descriptor()/EnumDescriptor() methods to the full name of the declaration it designates.
+func legacyPath(gz []byte, path []int, enum bool) (string, error) {
+	zr, err := gzip.NewReader(bytes.NewReader(gz))
+	if err != nil {
+		return "", err
+	}
+	raw, err := io.ReadAll(zr)
+	if err != nil {
+		return "", err
+	}
+	fdp := &descriptorpb.FileDescriptorProto{}
+	if err := proto.Unmarshal(raw, fdp); err != nil {
+		return "", err
+	}
+	if len(path) == 0 {
+		return "", fmt.Errorf("empty path")
+	}
+	name := fdp.GetPackage()
+	msgs := fdp.MessageType
+	enums := fdp.EnumType
+	for k, idx := range path {
+		last := k == len(path)-1
+		if last && enum {
+			if idx < 0 || idx >= len(enums) {
+				return "", fmt.Errorf("enum index %d out of range at step %d", idx, k)
+			}
+			return strings.TrimPrefix(name+"."+enums[idx].GetName(), "."), nil
+		}
+		if idx < 0 || idx >= len(msgs) {
+			return "", fmt.Errorf("message index %d out of range at step %d", idx, k)
+		}
+		m := msgs[idx]
+		name = strings.TrimPrefix(name+"."+m.GetName(), ".")
+		msgs, enums = m.NestedType, m.EnumType
+	}
+	return name, nil
 }
